@@ -35,7 +35,7 @@ def check_once(ctx, out, prefix, name, per_task_call_rx, per_task_what):
     if len(spawns) != 1:
         out.viol(rule, "%s|spawn-count" % rule, ctx.where(co), "expected exactly one task spawn site per block loop, found %d" % len(spawns))
         out.inst(rule, 0, 4)
-        return co
+        return None
     sbi, st = spawns[0]
     loops = shared.outer_block_loops(ctx, co)
     block_loops = [(h, bl) for h, bl, kind in loops if kind == "blocks"]
